@@ -648,12 +648,21 @@ def load_known():
     return json.load(open(KNOWN_FILE)).get("findings", [])
 
 
+def obligation_props(desc):
+    """Properties an obligation message is tagged with: `C09.line C12.span: text` -> {C09, C12}.  (Kani's assert!
+    assumes its condition afterwards, so one condition cannot be asserted twice under two tags.)"""
+    m = re.match(r"((?:C\d\d\.[\w.-]+[ /]+)*C\d\d\.[\w.-]+):", desc)
+    if not m:
+        return set()
+    return set(re.findall(r"(C\d\d)\.", m.group(1)))
+
+
 def counts_for(prop, h, failure):
     """Does this failed check count toward `prop`?  User obligations are prefixed `Cxx.`; panic-class
     checks (no prefix) count toward every property the harness is listed under."""
-    m = re.match(r"(C\d\d)\.", failure["description"])
-    if m:
-        return m.group(1) == prop
+    tags = obligation_props(failure["description"])
+    if tags:
+        return prop in tags
     return prop in h.props
 
 
@@ -693,6 +702,10 @@ def cmd_check(args):
             shutil.rmtree(os.path.join(logroot, d), ignore_errors=True)
     LOG_DIR = os.path.join(logroot, "%s-%s-%d" % (prop, tier, os.getpid()))
     os.makedirs(LOG_DIR, exist_ok=True)
+    global EVID_DIR
+    if only and not os.environ.get("KV_EVID_DIR"):
+        # partial runs never overwrite the property's evidence file
+        EVID_DIR = os.path.join(VERIF, "evidence", "partial")
     os.makedirs(EVID_DIR, exist_ok=True)
 
     allh = discover(tier)
